@@ -712,14 +712,15 @@ def _work(task):
 
 def scope_for(tier):
     if tier == "thorough":
-        return dict(length=4, rowsets=list(ROWSETS), ops=ALL_OPS)
-    return dict(length=3, rowsets=list(ROWSETS), ops=ALL_OPS)
+        # length 4 on the row sets with duplicates / unhashable values / no rows; length 3 on the two plain ones
+        return dict(length=4, rowsets=list(ROWSETS), ops=ALL_OPS, length_of={"s1": 3, "d2": 3})
+    return dict(length=3, rowsets=list(ROWSETS), ops=ALL_OPS, length_of={})
 
 
 def bounded(run, tier, seed):
     t0 = time.time()
     sc = scope_for(tier)
-    tasks = [(s, rs, op, sc["length"], sc["ops"]) for s in SOURCES for rs in sc["rowsets"] for op in sc["ops"]]
+    tasks = [(s, rs, op, sc["length_of"].get(rs, sc["length"]), sc["ops"]) for s in SOURCES for rs in sc["rowsets"] for op in sc["ops"]]
     random.Random(seed).shuffle(tasks)
     ctx = multiprocessing.get_context("fork")
     with ctx.Pool(min(16, multiprocessing.cpu_count())) as pool:
@@ -755,12 +756,13 @@ def bounded(run, tier, seed):
         run.crashes.append("C10 bounded: vacuous enumeration")
     blk = dict(
         function="Result / ScalarResult / MappingResult / FrozenResult / MergedResult / ChunkedIteratorResult / CursorResult public fetch API",
-        scope=("all model-admissible operation sequences of length <= %d (plus a final all()) over %d operations %s on %d row sets of 0..4 rows "
+        scope=("all model-admissible operation sequences of length <= %d%s (each followed by a draining observation through the getter kind the sequence used "
+               "first) over %d operations %s on %d row sets of 0..4 rows "
                "(duplicates, column-level duplicates, an unhashable JSON value) x sources %s: IteratorResult, sqlite3 CursorResult with default / "
                "stream_results+max_row_buffer=2 / yield_per=2 strategies, ChunkedIteratorResult over a CursorResult (static and dynamic_yield_per); "
                "FrozenResult via freeze, MergedResult via merge with a 2-row result; after a hard close exactly one further fetch call; "
                "_result_cy as installed (%s)") % (
-                   sc["length"], len(sc["ops"]), sc["ops"], len(sc["rowsets"]), SOURCES, _cy_state()),
+                   sc["length"], "".join(" (%d on row set %s)" % (v, k) for k, v in sc["length_of"].items()), len(sc["ops"]), sc["ops"], len(sc["rowsets"]), SOURCES, _cy_state()),
         evaluations=steps, sequences=nseq, distinct_nontrivial=nontriv,
         rule="sequences are enumerated exhaustively by depth-first search through the list model (inapplicable calls pruned); every "
              "(source, row set, sequence) is distinct by construction; counted as non-trivial when at least two of its calls delivered a row or raised",
